@@ -1127,4 +1127,343 @@ theorem full_catGo (dim d : Nat) (hd : dim < d) (ts : List (List (Core α))) :
       unfold full at IH
       rw [IH, hg1, List.set_set, Nat.sub_add_eq]
 
+
+/-! ### `pad` (operator branch) -/
+
+theorem sumTo_three (n : Nat) (f : Nat → α) :
+    sumTo (1 + n + 1) f = f 0 + sumTo n (fun k => f (1 + k)) + f (n + 1) := by
+  rw [sumTo_add, sumTo_add, sumTo_one, sumTo_one]
+  simp [Nat.add_comm]
+
+theorem padCoreM_row0 (c : Core α) (hasR : Bool) (p0 p1 : Nat) (v : α) (i j b : Nat) :
+    (padCoreM c true hasR p0 p1 v).get 0 i j b =
+      if b = 0 ∧ i < p0 ∧ j < p0 then (if i = j then v else 0) else 0 := by
+  simp [padCoreM]
+  intro h; omega
+
+theorem padCoreM_rowLast (c : Core α) (hasR : Bool) (p0 p1 : Nat) (v : α) (i j b : Nat) :
+    (padCoreM c true hasR p0 p1 v).get (c.r0 + 1) i j b =
+      if b = (if hasR then 1 else 0) + c.r1 + (if hasR then 1 else 0) - 1 ∧ p0 + c.m ≤ i ∧ p0 + c.n ≤ j
+      then (if i - (p0 + c.m) = j - (p0 + c.n) then v else 0) else 0 := by
+  have h1 : c.r0 + 1 = 1 + c.r0 + 1 - 1 := by omega
+  simp [padCoreM, h1]
+
+theorem padCoreM_rowMid (c : Core α) (hasR : Bool) (p0 p1 : Nat) (v : α) (a i j b : Nat) (ha : a < c.r0) :
+    (padCoreM c true hasR p0 p1 v).get (1 + a) i j b =
+      if (if hasR then 1 else 0) ≤ b ∧ b < (if hasR then 1 else 0) + c.r1 ∧
+          p0 ≤ i ∧ i < p0 + c.m ∧ p0 ≤ j ∧ j < p0 + c.n
+      then c.get a (i - p0) (j - p0) (b - (if hasR then 1 else 0)) else 0 := by
+  have h1 : ¬ (1 + a = 1 + c.r0 + 1 - 1) := by omega
+  have h2 : 1 + a < 1 + c.r0 := by omega
+  simp [padCoreM, h2]
+  intro h; omega
+
+theorem ite3 {A B C : Prop} [Decidable A] [Decidable B] [Decidable C]
+    (hAB : ¬ (A ∧ B)) (hAC : ¬ (A ∧ C)) (hBC : ¬ (B ∧ C)) (x y z : α) :
+    (if A then x else if B then y else if C then z else 0) =
+      (if B then y else 0) + (if A then x else 0) + (if C then z else 0) := by
+  by_cases hA : A <;> by_cases hB : B <;> by_cases hC : C <;> simp_all
+
+theorem padCoreM_first (c : Core α) (hasR : Bool) (p0 p1 : Nat) (v : α) (i j b : Nat) (h0 : c.r0 = 1) :
+    (padCoreM c false hasR p0 p1 v).get 0 i j b =
+      (if b = 0 ∧ i < p0 ∧ j < p0 then (if i = j then v else 0) else 0) +
+      (if b = (if hasR then 1 else 0) + c.r1 + (if hasR then 1 else 0) - 1 ∧ p0 + c.m ≤ i ∧ p0 + c.n ≤ j
+        then (if i - (p0 + c.m) = j - (p0 + c.n) then v else 0) else 0) +
+      (if (if hasR then 1 else 0) ≤ b ∧ b < (if hasR then 1 else 0) + c.r1 ∧
+          p0 ≤ i ∧ i < p0 + c.m ∧ p0 ≤ j ∧ j < p0 + c.n
+        then c.get 0 (i - p0) (j - p0) (b - (if hasR then 1 else 0)) else 0) := by
+  cases hasR <;> simp [padCoreM, h0] <;> exact ite3 (by omega) (by omega) (by omega) _ _ _
+
+/-- forward form of `padM`'s core list: position `k`, order `d`; the last core carries `v`, the
+    others `1` -/
+def padFwdM : List (Core α) → List (Nat × Nat) → Nat → Nat → α → List (Core α)
+  | c :: cs, p :: ps, k, d, v =>
+    padCoreM c (decide (k > 0)) (decide (k + 1 < d)) p.1 p.2 (if cs.isEmpty then v else 1)
+      :: padFwdM cs ps (k + 1) d v
+  | _, _, _, _, _ => []
+
+theorem padFwdM_snoc (d : Nat) (v : α) (A : List (Core α)) (c : Core α) (p : Nat × Nat) :
+    ∀ (Q : List (Nat × Nat)) (s : Nat), A.length = Q.length →
+      padFwdM (A ++ [c]) (Q ++ [p]) s d v =
+        padFwdM A Q s d 1 ++
+          [padCoreM c (decide (s + A.length > 0)) (decide (s + A.length + 1 < d)) p.1 p.2 v] := by
+  induction A with
+  | nil => intro Q s h; match Q, h with | [], _ => simp [padFwdM]
+  | cons a A ih =>
+    intro Q s h
+    match Q, h with
+    | q :: Q, h =>
+      have h' : A.length = Q.length := by simpa using h
+      simp only [List.cons_append, padFwdM, ih Q (s + 1) h', List.length_cons]
+      have e1 : s + 1 + A.length = s + (A.length + 1) := by omega
+      simp [e1]
+
+theorem padRevM_eq (d : Nat) : ∀ (L : List (Core α)) (P : List (Nat × Nat)) (k : Nat) (v : α),
+    L.length = P.length → L.length ≤ k + 1 →
+      (padRevM L P k d v).reverse = padFwdM L.reverse P.reverse (k + 1 - L.length) d v := by
+  intro L
+  induction L with
+  | nil => intro P k v h _; match P, h with | [], _ => simp [padRevM, padFwdM]
+  | cons c L ih =>
+    intro P k v h hk
+    match P, h with
+    | p :: P, h =>
+      have h' : L.length = P.length := by simpa using h
+      simp only [padRevM, List.reverse_cons, List.length_cons]
+      rw [padFwdM_snoc d v L.reverse c p P.reverse (k + 1 - (L.length + 1)) (by simpa using h')]
+      cases L with
+      | nil =>
+        match P, h' with
+        | [], _ => simp [padRevM, padFwdM]
+      | cons c' L' =>
+        have hk1 : 1 ≤ k := by simp at hk; omega
+        rw [ih P (k - 1) 1 h' (by simp at hk ⊢; omega)]
+        have e1 : k - 1 + 1 - (c' :: L').length = k + 1 - ((c' :: L').length + 1) := by omega
+        have e2 : k + 1 - ((c' :: L').length + 1) + (c' :: L').reverse.length = k := by
+          simp at hk ⊢; omega
+        rw [e1, e2]
+
+theorem padM_eq (cs : List (Core α)) (ps : List (Nat × Nat)) (v : α) (h : cs.length = ps.length) :
+    padM cs ps v = padFwdM cs ps 0 cs.length v := by
+  unfold padM
+  cases cs with
+  | nil => match ps, h with | [], _ => simp [padRevM, padFwdM]
+  | cons c cs =>
+    have := padRevM_eq (c :: cs).length (c :: cs).reverse ps.reverse ((c :: cs).length - 1) v
+      (by simpa using h) (by simp)
+    rw [this]
+    simp
+
+/-- entry of the leading `v·I` block -/
+def padBeforeM (ps ij : List (Nat × Nat)) : Prop :=
+  ∀ t ∈ ps.zip ij, t.2.1 < t.1.1 ∧ t.2.2 < t.1.1 ∧ t.2.1 = t.2.2
+
+/-- entry of the trailing `v·I` block -/
+def padAfterM (cs : List (Core α)) (ps ij : List (Nat × Nat)) : Prop :=
+  ∀ t ∈ cs.zip (ps.zip ij), t.2.1.1 + t.1.m ≤ t.2.2.1 ∧ t.2.1.1 + t.1.n ≤ t.2.2.2 ∧
+    t.2.2.1 - (t.2.1.1 + t.1.m) = t.2.2.2 - (t.2.1.1 + t.1.n)
+
+/-- entry of the original block -/
+def padInsideM (cs : List (Core α)) (ps ij : List (Nat × Nat)) : Prop :=
+  ∀ t ∈ cs.zip (ps.zip ij), t.2.1.1 ≤ t.2.2.1 ∧ t.2.2.1 < t.2.1.1 + t.1.m ∧
+    t.2.1.1 ≤ t.2.2.2 ∧ t.2.2.2 < t.2.1.1 + t.1.n
+
+instance (ps ij : List (Nat × Nat)) : Decidable (padBeforeM ps ij) := by
+  unfold padBeforeM; infer_instance
+instance (cs : List (Core α)) (ps ij : List (Nat × Nat)) : Decidable (padAfterM cs ps ij) := by
+  unfold padAfterM; infer_instance
+instance (cs : List (Core α)) (ps ij : List (Nat × Nat)) : Decidable (padInsideM cs ps ij) := by
+  unfold padInsideM; infer_instance
+
+def padShiftM (ps ij : List (Nat × Nat)) : List (Nat × Nat) :=
+  List.zipWith (fun p q => (q.1 - p.1, q.2 - p.1)) ps ij
+
+theorem padBeforeM_cons (p q : Nat × Nat) (ps ij : List (Nat × Nat)) :
+    padBeforeM (p :: ps) (q :: ij) ↔ (q.1 < p.1 ∧ q.2 < p.1 ∧ q.1 = q.2) ∧ padBeforeM ps ij := by
+  simp [padBeforeM]
+
+omit [CommRing α] in
+theorem padAfterM_cons (c : Core α) (cs : List (Core α)) (p q : Nat × Nat) (ps ij : List (Nat × Nat)) :
+    padAfterM (c :: cs) (p :: ps) (q :: ij) ↔
+      (p.1 + c.m ≤ q.1 ∧ p.1 + c.n ≤ q.2 ∧ q.1 - (p.1 + c.m) = q.2 - (p.1 + c.n)) ∧ padAfterM cs ps ij := by
+  simp [padAfterM]
+
+omit [CommRing α] in
+theorem padInsideM_cons (c : Core α) (cs : List (Core α)) (p q : Nat × Nat) (ps ij : List (Nat × Nat)) :
+    padInsideM (c :: cs) (p :: ps) (q :: ij) ↔
+      (p.1 ≤ q.1 ∧ q.1 < p.1 + c.m ∧ p.1 ≤ q.2 ∧ q.2 < p.1 + c.n) ∧ padInsideM cs ps ij := by
+  simp [padInsideM]
+
+theorem chain_padFwdM (d : Nat) (v : α) (cs : List (Core α)) (hne : cs ≠ []) :
+    ∀ (ps ij : List (Nat × Nat)) (s rx : Nat), cs.length = ps.length → ij.length = cs.length →
+      1 ≤ s → s + cs.length = d → WF cs rx →
+      chain (padFwdM cs ps s d v) ij 0 0 = (if padBeforeM ps ij then v else 0) ∧
+      chain (padFwdM cs ps s d v) ij (rx + 1) 0 = (if padAfterM cs ps ij then v else 0) ∧
+      ∀ a, a < rx → chain (padFwdM cs ps s d v) ij (1 + a) 0 =
+        if padInsideM cs ps ij then chain cs (padShiftM ps ij) a 0 else 0 := by
+  induction cs with
+  | nil => exact absurd rfl hne
+  | cons c cs ih =>
+    intro ps ij s rx hlp hli hs hsd hw
+    match ps, ij, hlp, hli with
+    | p :: ps, q :: ij, hlp, hli =>
+      obtain ⟨h0, hw'⟩ := hw
+      subst h0
+      cases cs with
+      | nil =>
+        have hps : ps = [] := by
+          cases ps with
+          | nil => rfl
+          | cons _ _ => simp at hlp
+        have hij : ij = [] := by
+          cases ij with
+          | nil => rfl
+          | cons _ _ => simp at hli
+        subst hps hij
+        have hc1 : c.r1 = 1 := hw'
+        have hL : decide (s > 0) = true := by simp; omega
+        have hR : decide (s + 1 < d) = false := by simp at hsd ⊢; omega
+        have e : padFwdM [c] [p] s d v = [padCoreM c true false p.1 p.2 v] := by
+          simp [padFwdM, hL, hR]
+        rw [e]
+        have er : (padCoreM c true false p.1 p.2 v).r1 = 1 := by simp [padCoreM, hc1]
+        simp only [chain, er, sumTo_one]
+        refine ⟨?_, ?_, ?_⟩
+        · rw [padCoreM_row0]
+          simp [padBeforeM, ite_and]
+        · rw [padCoreM_rowLast]
+          simp [padAfterM, hc1, ite_and]
+        · intro a ha
+          rw [padCoreM_rowMid _ _ _ _ _ _ _ _ _ ha]
+          simp [padInsideM, padShiftM, chain, hc1, sumTo, ite_and]
+      | cons c' cs' =>
+        have hlp' : (c' :: cs').length = ps.length := by simpa using hlp
+        have hli' : ij.length = (c' :: cs').length := by simpa using hli
+        obtain ⟨IHA, IHB, IHC⟩ := ih (by simp) ps ij (s + 1) c.r1 hlp' hli' (by omega)
+          (by simp at hsd ⊢; omega) hw'
+        have hL : decide (s > 0) = true := by simp; omega
+        have hR : decide (s + 1 < d) = true := by simp at hsd ⊢; omega
+        have e : padFwdM (c :: c' :: cs') (p :: ps) s d v =
+            padCoreM c true true p.1 p.2 1 :: padFwdM (c' :: cs') ps (s + 1) d v := by
+          simp [padFwdM, hL, hR]
+        rw [e]
+        have er : (padCoreM c true true p.1 p.2 (1:α)).r1 = 1 + c.r1 + 1 := by simp [padCoreM]
+        simp only [chain, er]
+        refine ⟨?_, ?_, ?_⟩
+        · rw [sumTo_three]
+          simp only [padCoreM_row0, IHA]
+          rw [sumTo_eq_zero (by intro k _; simp)]
+          simp only [padBeforeM_cons]
+          by_cases hT : padBeforeM ps ij <;> by_cases h1 : q.1 < p.1 <;> by_cases h2 : q.2 < p.1 <;>
+            by_cases h3 : q.1 = q.2 <;> simp [*]
+        · rw [sumTo_three]
+          simp only [padCoreM_rowLast, IHB]
+          rw [sumTo_eq_zero (by intro k _; simp; intro h; omega)]
+          simp only [padAfterM_cons]
+          have e0 : ¬ (0 = 1 + c.r1) := by omega
+          have e1 : c.r1 + 1 = 1 + c.r1 := by omega
+          by_cases hT : padAfterM (c' :: cs') ps ij <;> by_cases h1 : p.1 + c.m ≤ q.1 <;>
+            by_cases h2 : p.1 + c.n ≤ q.2 <;>
+            by_cases h3 : q.1 - (p.1 + c.m) = q.2 - (p.1 + c.n) <;> simp [*]
+        · intro a ha
+          rw [sumTo_three]
+          simp only [padCoreM_rowMid _ _ _ _ _ _ _ _ _ ha, if_true]
+          have hmid : ∀ k, k < c.r1 →
+              chain (padFwdM (c' :: cs') ps (s + 1) d v) ij (1 + k) 0 =
+                if padInsideM (c' :: cs') ps ij then chain (c' :: cs') (padShiftM ps ij) k 0 else 0 := IHC
+          have hz1 : ¬ (1 ≤ 0) := by omega
+          have hz2 : ¬ (c.r1 + 1 < 1 + c.r1) := by omega
+          simp only [hz1, hz2, false_and, and_false, if_false, zero_mul, zero_add, add_zero]
+          rw [sumTo_congr (fun k hk => by rw [hmid k hk])]
+          simp only [padInsideM_cons]
+          have esh : padShiftM (p :: ps) (q :: ij) = (q.1 - p.1, q.2 - p.1) :: padShiftM ps ij := rfl
+          rw [esh]
+          simp only [chain]
+          by_cases hH : p.1 ≤ q.1 ∧ q.1 < p.1 + c.m ∧ p.1 ≤ q.2 ∧ q.2 < p.1 + c.n
+          · by_cases hT : padInsideM (c' :: cs') ps ij
+            · rw [if_pos ⟨hH, hT⟩]
+              apply sumTo_congr; intro k hk
+              have hk1 : 1 ≤ 1 + k ∧ 1 + k < 1 + c.r1 ∧ p.1 ≤ q.1 ∧ q.1 < p.1 + c.m ∧ p.1 ≤ q.2 ∧ q.2 < p.1 + c.n :=
+                ⟨by omega, by omega, hH⟩
+              rw [if_pos hk1, if_pos hT]
+              simp
+            · rw [if_neg (fun h => hT h.2)]
+              apply sumTo_eq_zero; intro k hk
+              rw [if_neg hT]; ring
+          · rw [if_neg (fun h => hH h.1)]
+            apply sumTo_eq_zero; intro k hk
+            have hk1 : ¬ (1 ≤ 1 + k ∧ 1 + k < 1 + c.r1 ∧ p.1 ≤ q.1 ∧ q.1 < p.1 + c.m ∧ p.1 ≤ q.2 ∧ q.2 < p.1 + c.n) :=
+              fun h => hH h.2.2
+            rw [if_neg hk1]; ring
+
+theorem full_padM_gen (cs : List (Core α)) (ps ij : List (Nat × Nat)) (v : α) (hne : cs ≠ [])
+    (hlp : cs.length = ps.length) (hli : ij.length = cs.length) (hw : WF cs 1) :
+    full (padM cs ps v) ij =
+      (if padBeforeM ps ij then v else 0) + (if padAfterM cs ps ij then v else 0) +
+      (if padInsideM cs ps ij then full cs (padShiftM ps ij) else 0) := by
+  rw [padM_eq cs ps v hlp]
+  unfold full
+  match cs, ps, ij, hne, hlp, hli with
+  | c :: cs, p :: ps, q :: ij, _, hlp, hli =>
+    obtain ⟨h0, hw'⟩ := hw
+    cases cs with
+    | nil =>
+      have hps : ps = [] := by
+        cases ps with
+        | nil => rfl
+        | cons _ _ => simp at hlp
+      have hij : ij = [] := by
+        cases ij with
+        | nil => rfl
+        | cons _ _ => simp at hli
+      subst hps hij
+      have hc1 : c.r1 = 1 := hw'
+      have e : padFwdM [c] [p] 0 [c].length v = [padCoreM c false false p.1 p.2 v] := by
+        simp [padFwdM]
+      rw [e]
+      have er : (padCoreM c false false p.1 p.2 v).r1 = 1 := by simp [padCoreM, hc1]
+      simp only [chain, er, sumTo_one]
+      rw [padCoreM_first _ _ _ _ _ _ _ _ h0]
+      simp [padBeforeM, padAfterM, padInsideM, padShiftM, chain, hc1, sumTo, ite_and]
+    | cons c' cs' =>
+      have hlp' : (c' :: cs').length = ps.length := by simpa using hlp
+      have hli' : ij.length = (c' :: cs').length := by simpa using hli
+      obtain ⟨IHA, IHB, IHC⟩ := chain_padFwdM (c :: c' :: cs').length v (c' :: cs') (by simp) ps ij 1 c.r1
+        hlp' hli' (by omega) (by simp; omega) hw'
+      have e : padFwdM (c :: c' :: cs') (p :: ps) 0 (c :: c' :: cs').length v =
+          padCoreM c false true p.1 p.2 1 :: padFwdM (c' :: cs') ps 1 (c :: c' :: cs').length v := by
+        simp [padFwdM]
+      rw [e]
+      have er : (padCoreM c false true p.1 p.2 (1:α)).r1 = 1 + c.r1 + 1 := by simp [padCoreM]
+      simp only [chain, er]
+      rw [sumTo_three]
+      simp only [padCoreM_first _ _ _ _ _ _ _ _ h0, if_true, IHA, IHB]
+      have hz1 : ¬ (1 ≤ 0) := by omega
+      have hz2 : ¬ (c.r1 + 1 < 1 + c.r1) := by omega
+      have hz3 : ¬ (0 = 1 + c.r1 + 1 - 1) := by omega
+      have hz4 : ¬ (c.r1 + 1 = 0) := by omega
+      have hz5 : c.r1 + 1 = 1 + c.r1 + 1 - 1 := by omega
+      simp only [hz1, hz2, hz3, hz4, false_and, and_false, if_false, zero_add, add_zero, true_and]
+      have split3 : ∀ (X Y Z A B C : α), X = A → Z = B → Y = C → X + Y + Z = A + B + C := by
+        intro X Y Z A B C h1 h2 h3; subst h1 h2 h3; ring
+      apply split3
+      · simp only [padBeforeM_cons]
+        by_cases hT : padBeforeM ps ij <;> by_cases h1 : q.1 < p.1 <;> by_cases h2 : q.2 < p.1 <;>
+          by_cases h3 : q.1 = q.2 <;> simp [*]
+      · simp only [padAfterM_cons]
+        have e1 : c.r1 + 1 = 1 + c.r1 := by omega
+        by_cases hT : padAfterM (c' :: cs') ps ij <;> by_cases h1 : p.1 + c.m ≤ q.1 <;>
+          by_cases h2 : p.1 + c.n ≤ q.2 <;>
+          by_cases h3 : q.1 - (p.1 + c.m) = q.2 - (p.1 + c.n) <;> simp [*]
+      · simp only [padInsideM_cons]
+        have esh : padShiftM (p :: ps) (q :: ij) = (q.1 - p.1, q.2 - p.1) :: padShiftM ps ij := rfl
+        rw [esh]
+        simp only [chain]
+        by_cases hH : p.1 ≤ q.1 ∧ q.1 < p.1 + c.m ∧ p.1 ≤ q.2 ∧ q.2 < p.1 + c.n
+        · by_cases hT : padInsideM (c' :: cs') ps ij
+          · have hHT : (p.1 ≤ q.1 ∧ q.1 < p.1 + c.m ∧ p.1 ≤ q.2 ∧ q.2 < p.1 + c.n) ∧
+                padInsideM (c' :: cs') ps ij := ⟨hH, hT⟩
+            rw [if_pos hHT]
+            apply sumTo_congr; intro k hk
+            have hk1 : 1 ≤ 1 + k ∧ 1 + k < 1 + c.r1 ∧ p.1 ≤ q.1 ∧ q.1 < p.1 + c.m ∧ p.1 ≤ q.2 ∧ q.2 < p.1 + c.n :=
+              ⟨by omega, by omega, hH⟩
+            have hk2 : ¬ (1 + k = 0 ∧ q.1 < p.1 ∧ q.2 < p.1) := by omega
+            have hk3 : ¬ (1 + k = 1 + c.r1 + 1 - 1 ∧ p.1 + c.m ≤ q.1 ∧ p.1 + c.n ≤ q.2) := by omega
+            rw [if_pos hk1, if_neg hk2, if_neg hk3, IHC k hk, if_pos hT]
+            simp
+          · have hHT : ¬ ((p.1 ≤ q.1 ∧ q.1 < p.1 + c.m ∧ p.1 ≤ q.2 ∧ q.2 < p.1 + c.n) ∧
+                padInsideM (c' :: cs') ps ij) := fun h => hT h.2
+            rw [if_neg hHT]
+            apply sumTo_eq_zero; intro k hk
+            rw [IHC k hk, if_neg hT]; ring
+        · have hHT : ¬ ((p.1 ≤ q.1 ∧ q.1 < p.1 + c.m ∧ p.1 ≤ q.2 ∧ q.2 < p.1 + c.n) ∧
+              padInsideM (c' :: cs') ps ij) := fun h => hH h.1
+          rw [if_neg hHT]
+          apply sumTo_eq_zero; intro k hk
+          have hk1 : ¬ (1 ≤ 1 + k ∧ 1 + k < 1 + c.r1 ∧ p.1 ≤ q.1 ∧ q.1 < p.1 + c.m ∧ p.1 ≤ q.2 ∧ q.2 < p.1 + c.n) :=
+            fun h => hH h.2.2
+          have hk2 : ¬ (1 + k = 0 ∧ q.1 < p.1 ∧ q.2 < p.1) := by omega
+          have hk3 : ¬ (1 + k = 1 + c.r1 + 1 - 1 ∧ p.1 + c.m ≤ q.1 ∧ p.1 + c.n ≤ q.2) := by omega
+          rw [if_neg hk1, if_neg hk2, if_neg hk3]; ring
+
 end TT
